@@ -188,7 +188,7 @@ impl Context {
         *expr = expr.trim_start();
     }
 
-    fn eval_term(&self, expr: &mut &str, line: u32) -> Result<bool, Error> {
+    fn eval_term(&self, expr: &mut &str, line: u32) -> Result<i64, Error> {
         self.skip_whitespace(expr);
 
         let index = expr
@@ -212,7 +212,22 @@ impl Context {
             })?
             .is_ascii_digit()
         {
-            Ok(term == "1")
+            // Any number but 0 is true, and numbers are compared by value
+            let value = if let Some(hex) = term.strip_prefix("0x").or_else(|| term.strip_prefix("0X")) {
+                i64::from_str_radix(hex, 16)
+            } else {
+                term.parse::<i64>()
+            };
+            value.map_err(|_| {
+                let filename = self.current_filename.clone();
+                let included_in = self.includes_stack.last().cloned();
+                Error::Syntax {
+                    filename,
+                    included_in,
+                    line,
+                    msg: "Bad number".to_string(),
+                }
+            })
         } else {
             let filename = self.current_filename.clone();
             let included_in = self.includes_stack.last().cloned();
@@ -224,29 +239,33 @@ impl Context {
             })
         }
     }
-    fn eval_unary(&self, expr: &mut &str, line: u32) -> Result<bool, Error> {
-        let mut negate = false;
+    fn eval_unary(&self, expr: &mut &str, line: u32) -> Result<i64, Error> {
+        let mut negations = 0;
         self.skip_whitespace(expr);
         while expr.starts_with('!') {
             *expr = &expr[1..];
-            negate = !negate;
+            negations += 1;
             self.skip_whitespace(expr);
         }
 
-        Ok(negate ^ self.eval_term(expr, line)?)
+        let mut value = self.eval_term(expr, line)?;
+        for _ in 0..negations {
+            value = (value == 0) as i64;
+        }
+        Ok(value)
     }
-    fn eval_eq(&self, expr: &mut &str, line: u32) -> Result<bool, Error> {
+    fn eval_eq(&self, expr: &mut &str, line: u32) -> Result<i64, Error> {
         let mut result = self.eval_unary(expr, line)?;
         self.skip_whitespace(expr);
         while expr.starts_with("==") {
             *expr = &expr[2..];
-            result ^= !self.eval_unary(expr, line)?;
+            result = (result == self.eval_unary(expr, line)?) as i64;
             self.skip_whitespace(expr);
         }
         Ok(result)
     }
     fn evaluate(&self, mut expr: &str, line: u32) -> Result<bool, Error> {
-        let result = self.eval_eq(&mut expr, line)?;
+        let result = self.eval_eq(&mut expr, line)? != 0;
         self.skip_whitespace(&mut expr);
         if !expr.is_empty() {
             let filename = self.current_filename.clone();
